@@ -648,6 +648,7 @@ Lemma teq_S r fuel' a ap b bp st :
       | Some ta, Some tb =>
         if opt_nat_eqb a_idx b_idx then Ok (true, st)
         else if negb (path_eqb (t_path ta) (t_path tb)) then Ok (false, st)
+        else if negb (Nat.eqb (List.length (param_ids ta)) (List.length (param_ids tb))) then Ok (false, st)
         else
           teq_def (fun x y st => teq r fuel' x (glist_extend ap (t_params ta)) y
                                      (glist_extend bp (t_params tb)) st)
@@ -767,6 +768,8 @@ Section TeqTotal.
         destruct (opt_nat_eqb (index_for_type_id ap a) (index_for_type_id bp b)).
         { eexists; split; [reflexivity|]. cbn [fst snd]. split; [exact Hg1|cbn [List.length]; lia]. }
         destruct (negb (path_eqb (t_path ta) (t_path tb))).
+        { eexists; split; [reflexivity|]. cbn [fst snd]. split; [exact Hg1|cbn [List.length]; lia]. }
+        destruct (negb (Nat.eqb (List.length (param_ids ta)) (List.length (param_ids tb)))).
         { eexists; split; [reflexivity|]. cbn [fst snd]. split; [exact Hg1|cbn [List.length]; lia]. }
         destruct (teq_def_spec fuel
                     (fun x y st0 => teq r fuel x (glist_extend ap (t_params ta)) y
